@@ -95,6 +95,30 @@ def run_twins(rec, S):
                     rec.inst(R, "%s:LocalCaptured->%s" % (fn_, ev.name), ok=ok, loc=L(COMPILER, ev.line))
                     if not ok:
                         rec.finding(R, "F2.t/%s/captured-raw/%s" % (fn_, ev.name), "%s emits %s for a captured variable: the closure and the declaring scope would stop sharing it" % (fn_, ev.name), loc=L(COMPILER, ev.line), fn=fn_)
+    # every raw-slot access anywhere in the compiler is emitted under a SymbolState dispatch that excludes LocalCaptured:
+    # parameters (and `self`, slot 0) are boxed in place when a closure captures them, after which the slot holds the box
+    nraw = 0
+    for fn_, f in sorted(fns.items()):
+        for ev in synq.op_events(f):
+            if ev.name not in ("GetLocal", "SetLocal"):
+                continue
+            nraw += 1
+            disp = any(c[0] == "arm" and "LocalInitialized" in " ".join(map(str, c[2:4])) and "LocalCaptured" not in " ".join(map(str, c[2:4])) for c in ev.ctx)
+            comp = False
+            if not disp:
+                # or: a sibling arm/branch of the same construct emits the boxed twin for the captured case
+                # (same enclosing construct: the two events share the scrutinee/condition of the arm that tells them apart)
+                want = "GetBox" if ev.name == "GetLocal" else "SetBox"
+                for e in synq.op_events(f):
+                    if e.name != want or len(e.ctx) != len(ev.ctx) or not e.ctx:
+                        continue
+                    if e.ctx[:-1] == ev.ctx[:-1] and e.ctx[-1][0] == ev.ctx[-1][0] and e.ctx[-1][1] == ev.ctx[-1][1] and "LocalCaptured" in " ".join(map(str, e.ctx[-1][1:4])):
+                        comp = True
+            ok = disp or comp
+            rec.inst(R, "%s:%s raw slot under a state dispatch" % (fn_, ev.name), ok=ok, loc=L(COMPILER, ev.line))
+            if not ok:
+                rec.finding(R, "F2.t/raw-slot/%s/%s" % (fn_, ev.name), "%s emits %s with a fixed slot without asking whether the variable in that slot is captured: when it is (e.g. `self` captured by a lambda inside init), the slot holds the box and the raw instruction yields the box itself instead of the variable's value" % (fn_, ev.name), loc=L(COMPILER, ev.line), fn=fn_)
+    rec.floor(R, "raw-slot emissions", nraw, 3)
     # captured declarations always allocate a box
     for name, want in (("declare_local_variable", "EmptyBox"), ("define_local_variable", "FillBox"), ("declare_and_define_parameter", "Box")):
         f = fns.get(name)
